@@ -6,6 +6,8 @@
 #include "vrt_alloc.h"
 #include "vrt_st.h"
 #include "gen_text.h"
+#include "gen_scale.h"
+#include "ambient.h"
 #include <cmath>
 #include <cfloat>
 #include <cerrno>
@@ -73,30 +75,150 @@ static S ref_format(const Spec &s, double v)
     return r;
 }
 
+// `prefix` (no braces in it) is output in front of the field: literal text of the format string, or - `prefix_as_argument` - a string
+// argument formatted before the number, so that the rendering and its padding land at any offset of the output
 template <typename FT>
-static void format_case(const Spec &s, FT value)
+static void format_case(const Spec &s, FT value, const S &prefix = S(), bool prefix_as_argument = false)
 {
     const double dv = static_cast<double>(value);
-    S fmt = "[" + spec_text(s) + "]";
+    const S field = "[" + spec_text(s) + "]";
+    const S fmt = prefix.empty() ? field : prefix_as_argument ? "{}" + field : prefix + field;
+    const S fmt_shown = prefix.empty() ? field : sfmt("<%zu bytes %s>", prefix.size(), prefix_as_argument ? "from a string argument" : "of literal text") + field;
     vrt::cur_rewind();
-    vrt::cur_printf("format fmt=%s value=%s type=%s\n", fmt.c_str(), dbl_bits(dv).c_str(), sizeof(FT) == 4 ? "float" : "double");
+    vrt::cur_printf("format fmt=%s value=%s type=%s\n", fmt_shown.c_str(), dbl_bits(dv).c_str(), sizeof(FT) == 4 ? "float" : "double");
     vrt::Exact<char> f(fmt.data(), fmt.size(), true);
-    S want = "[" + ref_format(s, dv) + "]";
+    const S rendering = ref_format(s, dv);
+    S want = prefix + "[" + rendering + "]";
     vrt::evals();
     try {
-        ST::string got = ST::format(f.data(), value);
-        if (vrt::str_of(got) != want)
-            vrt::violation("C13:format:differs-from-printf", sfmt("fmt=%s value=%s got=%s want=%s", fmt.c_str(), dbl_bits(dv).c_str(),
-                                                                  vrt::str_of(got).substr(0, 200).c_str(), want.substr(0, 200).c_str()));
-        if (got.c_str()[got.size()] != 0) vrt::violation("C13:format:no-terminator", fmt);
+        ST::string got = (!prefix.empty() && prefix_as_argument) ? ST::format(f.data(), vrt::mk(prefix), value) : ST::format(f.data(), value);
+        if (vrt::str_of(got) != want) {
+            if (want.size() <= 400 && got.size() <= 400)
+                vrt::violation("C13:format:differs-from-printf", sfmt("fmt=%s value=%s got=%s want=%s", fmt.c_str(), dbl_bits(dv).c_str(),
+                                                                      vrt::str_of(got).substr(0, 200).c_str(), want.substr(0, 200).c_str()));
+            else {
+                const S g = vrt::str_of(got);
+                const size_t at = scale::first_diff(g, want);
+                vrt::violation("C13:format:differs-from-printf", sfmt("fmt=%s value=%s got %s want %s (first difference at %zu)", fmt_shown.c_str(), dbl_bits(dv).c_str(),
+                                                                      scale::brief(g, at).c_str(), scale::brief(want, at).c_str(), at));
+            }
+        }
+        if (got.c_str()[got.size()] != 0) vrt::violation("C13:format:no-terminator", fmt_shown);
     } catch (const std::exception &e) {
-        vrt::violation(sfmt("C13:format:threw:%s", vrt::demangle(typeid(e).name()).c_str()), sfmt("fmt=%s value=%s: %s", fmt.c_str(), dbl_bits(dv).c_str(), e.what()));
+        vrt::violation(sfmt("C13:format:threw:%s", vrt::demangle(typeid(e).name()).c_str()), sfmt("fmt=%s value=%s: %s", fmt_shown.c_str(), dbl_bits(dv).c_str(), e.what()));
     }
+    want = "[" + rendering + "]";
     size_t rl = want.size() - 2;
     vrt::count("format.calls");
     if (rl >= 62 && rl <= 66 && s.width == 0) vrt::count(sfmt("format.rendering_len_%zu", rl));
     if (rl >= 64) vrt::count("format.rendering_64_or_longer");
     if (s.width > 0 && static_cast<size_t>(s.width) > ref_format(Spec{s.cls, s.precision, s.plus, 0, 0, 0, 0}, dv).size()) vrt::count("format.padded");
+}
+
+// how a stream came to hold what it holds before the number goes in
+enum History { ONE_APPEND, CHUNKS, GROWN_THEN_TRUNCATED, NUMBERS, MOVED, N_HISTORIES };
+static const char *history_name(unsigned h)
+{
+    static const char *const n[] = {"one_append", "chunks", "grown_then_truncated", "numbers", "moved"};
+    return n[h % N_HISTORIES];
+}
+
+// text of exactly `fill` bytes; with c == 0 one that tells positions apart (a block copied to or from the wrong offset shows)
+static S position_pattern(size_t fill, char c)
+{
+    S p(fill, c);
+    if (c != 0) return p;
+    for (size_t i = 0; i < fill; ++i) p[i] = static_cast<char>('a' + (i + i / 251 + i / 65521) % 26);
+    return p;
+}
+
+static double pick_double(Rng &r);
+
+// Brings `ss` to hold `prefix` (history NUMBERS rewrites `prefix`: most of it becomes numbers that went in through <<).
+static void fill_stream(ST::string_stream &ss, S &prefix, unsigned history, Rng *r)
+{
+    const size_t fill = prefix.size();
+    switch (r ? history : ONE_APPEND) {
+    case CHUNKS: {          // many appends: the buffer goes through every doubling on the way
+        size_t done = 0;
+        while (done < fill) {
+            size_t n = r->chance(1, 4) ? 1 + r->below(16) : r->chance(1, 2) ? 1 + r->below(700) : 1 + r->below(40000);
+            n = std::min(n, fill - done);
+            if (n == 1 && r->chance(1, 2)) ss.append_char(prefix[done]); else ss.append(prefix.data() + done, n);
+            done += n;
+        }
+        break;
+    }
+    case GROWN_THEN_TRUNCATED: {   // capacity left over from a bigger past
+        const S junk(fill + 1 + r->below(2 * fill + 600), '#');
+        if (r->chance(1, 2)) {
+            ss.append(junk.data(), junk.size());
+            ss.truncate(0);
+            ss.append(prefix.data(), prefix.size());
+        } else {
+            ss.append(prefix.data(), prefix.size());
+            ss.append(junk.data(), junk.size());
+            if (r->chance(1, 2)) ss.truncate(fill); else ss.erase(junk.size());
+        }
+        break;
+    }
+    case NUMBERS: {         // thousands of consecutive insertions into one object
+        S model;
+        model.reserve(fill);
+        uint64_t inserts = 0;
+        while (model.size() + 16 <= fill) {
+            const double x = pick_double(*r);
+            if (r->chance(1, 3)) { const float f = static_cast<float>(x); ss << f; model += c_render("%g", static_cast<double>(f)); }
+            else { ss << x; model += c_render("%g", x); }
+            ss << ';';
+            model += ';';
+            ++inserts;
+        }
+        vrt::count("scale.consecutive_number_inserts", inserts);
+        const size_t rest = fill - model.size();
+        ss.append_char('p', rest);
+        model.append(rest, 'p');
+        prefix = model;
+        break;
+    }
+    default:
+        ss.append(prefix.data(), prefix.size());
+        break;
+    }
+}
+
+// A number streamed into a stream that already holds text: the %g rendering ends (`end_anchored`) or starts just below, at and
+// just beyond `mark`, and more text follows.
+template <typename FT>
+static void nearly_full_stream(FT value, size_t mark, bool end_anchored, unsigned history, char pattern, Rng *r)
+{
+    const double dv = static_cast<double>(value);
+    const S want = c_render("%g", dv);
+    for (int d = -1; d <= 1; ++d) {
+        const long start = static_cast<long>(mark) - (end_anchored ? static_cast<long>(want.size()) : 0) + d;
+        if (start < 0 || (!r && want.size() + 2 > mark)) continue;
+        const size_t fill = static_cast<size_t>(start);
+        S prefix = position_pattern(fill, pattern);
+        vrt::Box<ST::string_stream> s2;
+        if (r && history == MOVED) {        // the stream that takes the number was move-constructed, the one that is read move-assigned
+            vrt::Box<ST::string_stream> first;
+            fill_stream(*first, prefix, CHUNKS, r);
+            vrt::Box<ST::string_stream> second(std::move(*first));
+            *second << value << "tail";
+            *s2 = std::move(*second);
+        } else {
+            fill_stream(*s2, prefix, history, r);
+            *s2 << value << "tail";
+        }
+        vrt::evals();
+        const S got(s2->raw_buffer(), s2->size());
+        if (got != prefix + want + "tail") {
+            const size_t at = scale::first_diff(got, prefix + want + "tail");
+            vrt::violation("C13:string_stream:nearly-full-stream", sfmt("value=%s after %zu bytes (%s) got ...%s; %s, first difference at %zu", dbl_bits(dv).c_str(), fill, history_name(r ? history : 0),
+                                                                        got.substr(fill > 4 ? std::min(fill - 4, got.size()) : 0, 60).c_str(), scale::brief(got, at).c_str(), at));
+        }
+        vrt::count("mini.nearly_full_stream_inserts");
+    }
 }
 
 template <typename FT>
@@ -140,18 +262,7 @@ static void mini_case(FT value)
         // the same into a stream that is already nearly full: the rendering ends just below, at and just beyond the
         // in-object capacity (256) / the first heap capacity (512), and more text follows
         for (size_t cap : {size_t(256), size_t(512)})
-            for (int d = -1; d <= 1; ++d) {
-                if (want.size() + 2 > cap) continue;
-                const size_t fill = cap - want.size() + static_cast<size_t>(d + 1) - 1;
-                vrt::Box<ST::string_stream> s2;
-                const S prefix(fill, 'p');
-                s2->append(prefix.data(), prefix.size());
-                *s2 << value << "tail";
-                vrt::evals();
-                if (S(s2->raw_buffer(), s2->size()) != prefix + want + "tail")
-                    vrt::violation("C13:string_stream:nearly-full-stream", sfmt("value=%s after %zu bytes got ...%s", dbl_bits(dv).c_str(), fill, S(s2->raw_buffer(), s2->size()).substr(fill > 4 ? fill - 4 : 0).c_str()));
-                vrt::count("mini.nearly_full_stream_inserts");
-            }
+            nearly_full_stream<FT>(value, cap, true, ONE_APPEND, 'p', nullptr);
     }
     vrt::count("mini.values");
 }
@@ -219,6 +330,166 @@ static void parse_case(const S &text)
     vrt::distinct(vrt::fnv1a(text.data(), text.size(), 61));
 }
 
+// ---------------------------------------------------------------- scale: floating-point texts of several KiB up to ~1 MiB
+// white space, sign, then  zeros digits . zeros digits e sign zeros digits  |  0x hexdigits . hexdigits p sign digits  |
+// nan( n-char-sequence )  |  inf / infinity,  then (optionally) a byte that stops the C library and more bytes
+struct BigFloat {
+    enum Kind { DECIMAL, HEX, NAN_SEQ, INF } kind = DECIMAL;
+    size_t W = 0, IZ = 0, ID = 0, FZ = 0, FD = 0, EZ = 0, ED = 0, N = 0, J = 0;
+    bool dot = false, exp = false, close = true, long_inf = false;
+    S sign, esign;
+    size_t planned() const
+    {
+        size_t n = W + sign.size();
+        switch (kind) {
+        case NAN_SEQ: return n + 3 + (close ? 1 + N + 1 : 0);
+        case INF: return n + (long_inf ? 8 : 3);
+        case HEX: n += 2; break;
+        default: break;
+        }
+        n += IZ + ID + (dot ? 1 : 0) + FZ + FD;
+        if (exp) n += 1 + esign.size() + EZ + ED;
+        return n;
+    }
+};
+enum Run { RUN_W, RUN_IZ, RUN_ID, RUN_FZ, RUN_FD, RUN_EZ, RUN_ED, RUN_N, N_RUNS };
+static const char *const run_names[] = {"white space", "leading zeros", "integer digits", "zeros after the point", "fraction digits", "zeros in the exponent", "exponent digits", "nan(...) sequence"};
+static size_t &run_of(BigFloat &p, unsigned which)
+{
+    switch (which) {
+    case RUN_W: return p.W;
+    case RUN_IZ: return p.IZ;
+    case RUN_ID: return p.ID;
+    case RUN_FZ: return p.FZ;
+    case RUN_FD: return p.FD;
+    case RUN_EZ: return p.EZ;
+    case RUN_ED: return p.ED;
+    default: return p.N;
+    }
+}
+
+static void put_run(Rng &r, S &t, size_t n, const char *alphabet, bool first_nonzero)
+{
+    const size_t k = strlen(alphabet);
+    const unsigned style = static_cast<unsigned>(r.below(3));       // one character repeated / random / the last of the alphabet
+    const char fixed = style == 2 ? alphabet[k - 1] : alphabet[r.below(k)];
+    for (size_t i = 0; i < n; ++i) {
+        char c = style == 1 ? alphabet[r.below(k)] : fixed;
+        if (i == 0 && first_nonzero && c == '0') c = '1';
+        t += c;
+    }
+}
+
+// a decimal exponent that brings a mantissa with `shift` more (or fewer) digits than fit back into the range of a double
+static S compensating(long shift) { return sfmt("%ld", shift < 0 ? -shift : shift); }
+
+static S big_float_text(Rng &r, const BigFloat &p, const S &exponent_digits)
+{
+    S t;
+    t.reserve(p.planned() + p.J);
+    {
+        static const char ws[] = " \t\n\v\f\r";
+        if (r.chance(1, 2)) t.append(p.W, ws[r.below(6)]);
+        else for (size_t i = 0; i < p.W; ++i) t += ws[r.below(6)];
+    }
+    t += p.sign;
+    switch (p.kind) {
+    case BigFloat::NAN_SEQ:
+        t += r.chance(1, 2) ? "nan" : "NaN";
+        t += '(';
+        put_run(r, t, p.N, "0123456789abcdefXYZ_", false);
+        if (p.close) t += ')';          // without it only "nan" is consumed, however long the sequence
+        break;
+    case BigFloat::INF:
+        t += p.long_inf ? (r.chance(1, 2) ? "infinity" : "INFINITY") : (r.chance(1, 2) ? "inf" : "Inf");
+        break;
+    default: {
+        const bool hex = p.kind == BigFloat::HEX;
+        const char *digits = hex ? "0123456789abcdefABCDEF" : "0123456789";
+        if (hex) t += r.chance(1, 2) ? "0x" : "0X";
+        t.append(p.IZ, '0');
+        put_run(r, t, p.ID, digits, true);
+        if (p.dot) t += '.';
+        t.append(p.FZ, '0');
+        put_run(r, t, p.FD, digits, p.FD <= 40);
+        if (p.exp) {
+            t += hex ? (r.chance(1, 2) ? 'p' : 'P') : (r.chance(1, 2) ? 'e' : 'E');
+            t += p.esign;
+            t.append(p.EZ, '0');
+            if (!exponent_digits.empty()) t += exponent_digits; else put_run(r, t, p.ED, "0123456789", true);
+        }
+        break;
+    }
+    }
+    if (p.J) {
+        S stoppers = S(" _,z-+g\xe9") + S(1, '\0') + S(1, '\0');
+        t += stoppers[r.below(stoppers.size())];
+        const size_t rest = p.J - 1;
+        switch (r.below(3)) {
+        case 0: put_run(r, t, rest, "0123456789", false); break;       // what follows would parse, had the C library not stopped
+        case 1: { S al = " x.9_0e\xc3"; al.push_back('\0'); t += scale::byte_background(r, rest, al); break; }
+        default: t.append(rest, "x 9."[r.below(4)]); break;
+        }
+    }
+    return t;
+}
+
+// A text of which the C library consumes `consumed` characters, most of them in one run (`which`); with `exact_run` that run is
+// `consumed` characters long and the rest comes on top.  Returns the text.
+static S plan_big_float(Rng &r, BigFloat &p, size_t consumed, unsigned which, size_t junk, bool exact_run = false)
+{
+    static const char *const signs[] = {"", "", "-", "+"};
+    p = BigFloat();
+    p.J = junk;
+    p.sign = r.pick(signs);
+    if (which == RUN_N) {
+        p.kind = BigFloat::NAN_SEQ;
+        p.W = r.chance(1, 3) ? r.below(4) : 0;
+    } else {
+        p.kind = (which != RUN_EZ && which != RUN_ED && r.chance(1, 5)) ? BigFloat::HEX : BigFloat::DECIMAL;
+        p.W = r.chance(1, 3) ? r.below(4) : 0;
+        p.IZ = r.chance(1, 3) ? r.below(3) : 0;
+        p.ID = 1 + r.below(r.chance(1, 4) ? 30 : 4);
+        p.dot = r.chance(1, 2) || which == RUN_FZ || which == RUN_FD;
+        if (p.dot) { p.FZ = r.chance(1, 3) ? r.below(3) : 0; p.FD = r.below(r.chance(1, 4) ? 30 : 4); }
+        p.exp = r.chance(1, 2) || which == RUN_EZ || which == RUN_ED;
+        if (p.exp) { p.esign = r.pick(signs); p.EZ = r.chance(1, 3) ? r.below(3) : 0; p.ED = 1 + r.below(3); }
+    }
+    run_of(p, which) = 0;
+    const size_t others = exact_run ? 0 : p.planned();
+    if (consumed <= others) {            // too short for the extras: white space, one digit, and the run
+        const S sg = p.sign;
+        const BigFloat::Kind k = p.kind;
+        p = BigFloat();
+        p.J = junk;
+        if (k == BigFloat::NAN_SEQ && consumed >= 5) { p.kind = k; p.N = consumed - 5; return big_float_text(r, p, S()); }
+        p.ID = 1;
+        if (consumed >= 2 && which == RUN_W) p.W = consumed - 1;
+        else if (consumed >= 2) p.IZ = consumed - 1;
+        return big_float_text(r, p, S());
+    }
+    const size_t L = consumed - others;
+    run_of(p, which) = L;
+    // keep the value inside the range of a double where a decimal exponent can do that, so that digits far inside the text decide it
+    S expd;
+    if (p.kind == BigFloat::DECIMAL && p.exp && which != RUN_EZ && which != RUN_ED && r.chance(2, 3)) {
+        const long shift = which == RUN_ID ? -static_cast<long>(L) : which == RUN_FZ ? static_cast<long>(L) : 0;
+        if (shift != 0) {
+            const BigFloat before = p;
+            const long e = shift + static_cast<long>(r.below(40)) - 20;
+            expd = compensating(e);
+            p.esign = e < 0 ? "-" : (r.chance(1, 2) ? "+" : "");
+            p.ED = expd.size();
+            // the exponent's digits are part of what is consumed: take them out of the run
+            const size_t was = 1 + before.esign.size() + before.EZ + before.ED, now = 1 + p.esign.size() + p.EZ + p.ED;
+            if (exact_run) { }
+            else if (L + was > now) run_of(p, which) = L + was - now;
+            else { p = before; expd.clear(); }
+        }
+    }
+    return big_float_text(r, p, expd);
+}
+
 static double pick_double(Rng &r)
 {
     switch (r.below(12)) {
@@ -269,6 +540,7 @@ static Spec pick_spec(Rng &r, double v)
 
 static void body()
 {
+    ambient::enable(3);
     vrt::require("format.calls", 10000);
     vrt::require("format.padded", 1000);
     vrt::require("format.rendering_64_or_longer", 500);
@@ -397,6 +669,239 @@ static void body()
         parse_case(t);
         if (vrt::want_sample("parse_random") && t.size() > 30) vrt::sample("parse_random", "text=" + t);
     });
+    // scale: texts of several KiB up to ~1 MiB.  The case index walks a grid: block size B x multiple q x what is measured in
+    // multiples of B (the length the C library consumes / the total length / the length of what follows the number / the position
+    // of an embedded NUL / the length of one run: white space, leading zeros, integer digits, zeros after the point, fraction
+    // digits, zeros in the exponent, exponent digits, the nan(...) sequence); every grid point is tried on the multiple and next to it
+    {
+        vrt::require("scale.parse_texts", 1000);
+        vrt::require("scale.consumed>=64KiB", 100);
+        vrt::require("scale.consumed_is_multiple_of_256", 100);
+        vrt::require("scale.consumed_is_multiple_of_65536", 20);
+        vrt::require("scale.full_match>=64KiB", 20);
+        vrt::require("scale.full_match_on_multiple_of_65536", 3);
+        vrt::require("scale.total_is_multiple_of_65536", 10);
+        vrt::require("scale.embedded_NUL_beyond_64KiB", 10);
+        vrt::require("scale.finite_nonzero_value_from_text>=4KiB", 100);
+        vrt::require("scale.mantissa>=1000_digits", 100);
+        vrt::require("scale.exponent>=1000_digits", 20);
+        vrt::require("scale.text>=256KiB", 20);
+        const std::vector<size_t> &BL = scale::blocks();
+        const size_t grid = BL.size() * 8, origins = 5;
+        vrt::phase("scale_parse", vrt::tier_count(grid * origins * 2, grid * origins * 40), [&](uint64_t i, Rng &r) {
+            const size_t B = BL[i % BL.size()], q = 1 + (i / BL.size()) % 8;
+            const unsigned origin = static_cast<unsigned>((i / grid) % origins);
+            const size_t T = q * B;
+            if (T > 1310720) { vrt::count("scale.skipped_too_large"); return; }
+            static const char *const oname[] = {"consumed length", "total length", "length after the number", "position of an embedded NUL", "length of one run"};
+            const long nudges[4] = {0, -1, 1, r.chance(1, 2) ? static_cast<long>(2 + r.below(8)) : -static_cast<long>(2 + r.below(8))};
+            for (long d : nudges) {
+                if (static_cast<long>(T) + d < 1) continue;
+                const size_t t = static_cast<size_t>(static_cast<long>(T) + d);
+                const size_t some = r.chance(1, 3) ? r.below(40) : r.chance(1, 2) ? 1000 + r.below(70000) : 131072 + r.below(140000);
+                unsigned which = static_cast<unsigned>(r.below(N_RUNS));
+                BigFloat p;
+                S text;
+                switch (origin) {
+                case 0:                     // the C library stops after t characters
+                    text = plan_big_float(r, p, t, which, r.chance(1, 4) ? 0 : 1 + some);
+                    break;
+                case 1: {                   // the text is t characters long; nothing, little or a lot follows the number
+                    size_t j = r.chance(1, 2) ? 0 : r.chance(1, 2) ? 1 + r.below(9) : 1 + r.below(t);
+                    if (j >= t) j = t - 1;
+                    text = plan_big_float(r, p, t - j, which, j);
+                    break;
+                }
+                case 2:                     // t characters follow the number
+                    if (r.chance(1, 6)) {   // ... among them an unterminated nan( sequence: only "nan" counts
+                        p = BigFloat();
+                        p.kind = BigFloat::NAN_SEQ;
+                        p.close = false;
+                        p.N = t - 1;
+                        p.W = r.below(3);
+                        text = big_float_text(r, p, S());
+                    } else if (r.chance(1, 6)) {
+                        p = BigFloat();
+                        p.kind = BigFloat::INF;
+                        p.long_inf = r.chance(1, 2);
+                        p.W = r.chance(1, 2) ? 0 : scale::length(r, 200000, 1);
+                        p.J = t;
+                        text = big_float_text(r, p, S());
+                    } else
+                        text = plan_big_float(r, p, r.chance(1, 2) ? 1 + r.below(40) : scale::length(r, 300000, 1), which, t);
+                    break;
+                case 3:                     // a NUL at offset t, the same kind of characters on both sides of it
+                    text = plan_big_float(r, p, t, which, 0);
+                    text.push_back('\0');
+                    put_run(r, text, 1 + some, which == RUN_W ? " " : which == RUN_N ? "0123456789abcdefXYZ_" : "0123456789", false);
+                    if (which == RUN_N) text += ')';
+                    break;
+                default: {                  // one run is exactly t long
+                    which = static_cast<unsigned>((i + i / BL.size()) % N_RUNS);
+                    text = plan_big_float(r, p, t, which, r.chance(1, 2) ? 0 : 1 + r.below(300), true);
+                    if (run_of(p, which) == t) vrt::count(std::string("scale.run_of_exact_length.") + run_names[which]);
+                    break;
+                }
+                }
+                // what the C library makes of it (bookkeeping only; parse_case asks the C library itself)
+                char *endp = nullptr;
+                const double val = strtod(text.c_str(), &endp);
+                const size_t consumed = static_cast<size_t>(endp - text.c_str());
+                parse_case(text);
+                vrt::count("scale.parse_texts");
+                vrt::count(consumed == p.planned() ? "scale.consumed_as_planned" : "scale.consumed_other_than_planned");
+                if (consumed >= 65536) vrt::count("scale.consumed>=64KiB");
+                if (consumed && consumed % 256 == 0) vrt::count("scale.consumed_is_multiple_of_256");
+                if (consumed && consumed % 65536 == 0) vrt::count("scale.consumed_is_multiple_of_65536");
+                if (consumed == text.size() && consumed >= 65536) vrt::count("scale.full_match>=64KiB");
+                if (consumed == text.size() && consumed % 65536 == 0) vrt::count("scale.full_match_on_multiple_of_65536");
+                if (text.size() % 65536 == 0) vrt::count("scale.total_is_multiple_of_65536");
+                if (text.size() >= 262144) vrt::count("scale.text>=256KiB");
+                { const size_t z = text.find('\0'); if (z != S::npos && z >= 65536) vrt::count("scale.embedded_NUL_beyond_64KiB"); }
+                if (consumed >= 4096 && std::isfinite(val) && val != 0) vrt::count("scale.finite_nonzero_value_from_text>=4KiB");
+                if (p.kind != BigFloat::NAN_SEQ && p.kind != BigFloat::INF && p.ID + p.FD >= 1000) vrt::count("scale.mantissa>=1000_digits");
+                if (p.exp && p.EZ + p.ED >= 1000) vrt::count("scale.exponent>=1000_digits");
+                if (p.kind == BigFloat::HEX) vrt::count("scale.hexadecimal_text");
+                if (p.kind == BigFloat::NAN_SEQ) vrt::count("scale.nan_sequence_text");
+                if (vrt::want_sample("scale"))
+                    vrt::sample("scale", sfmt("parse: text %s: %zu blanks, sign '%s', %s, %zu+%zu integer / %zu+%zu fraction zeros+digits, exponent %zu+%zu, nan sequence %zu, %zu more bytes; %s%s%s = %zu x %zu %+ld; the C library consumes %zu",
+                                              scale::brief(text).c_str(), p.W, p.sign.c_str(), p.kind == BigFloat::HEX ? "hexadecimal" : p.kind == BigFloat::NAN_SEQ ? "nan(...)" : p.kind == BigFloat::INF ? "inf" : "decimal",
+                                              p.IZ, p.ID, p.FZ, p.FD, p.exp ? p.EZ : 0, p.exp ? p.ED : 0, p.N, text.size() - std::min(text.size(), p.planned()), oname[origin],
+                                              origin == 4 ? ": " : "", origin == 4 ? run_names[which] : "", q, B, d, consumed));
+            }
+            vrt::count(sfmt("scale.measured.%s", oname[origin]));
+        });
+    }
+    // scale: precisions and widths from 300 to 10^5 (a few to 2^20), the precision / the length of the rendering / the width / the
+    // offset in the output where the field starts / ends on and next to q x B; fresh outputs and outputs that already hold
+    // up to 1 MiB (literal text or a string argument in front of the field)
+    {
+        vrt::require("scale.format_cases", 1000);
+        vrt::require("scale.precision>=300", 1000);
+        vrt::require("scale.precision>=65536", 40);
+        vrt::require("scale.precision>=1000000", 2);
+        vrt::require("scale.width>=1000", 300);
+        vrt::require("scale.width>=65536", 20);
+        vrt::require("scale.padding>=4096", 100);
+        vrt::require("scale.rendering_length_is_multiple_of_256", 50);
+        vrt::require("scale.rendering_length_is_multiple_of_65536", 5);
+        vrt::require("scale.field_behind>=64KiB", 50);
+        const std::vector<size_t> &BL = scale::blocks();
+        const size_t grid = BL.size() * 8, origins = 5;
+        vrt::phase("scale_format", vrt::tier_count(grid * origins * 2, grid * origins * 40), [&](uint64_t i, Rng &r) {
+            const size_t B = BL[i % BL.size()], q = 1 + (i / BL.size()) % 8;
+            const unsigned origin = static_cast<unsigned>((i / grid) % origins);
+            const size_t T = q * B;
+            if (T > 1100000) { vrt::count("scale.skipped_too_large"); return; }
+            static const char *const oname[] = {"precision", "length of the rendering", "width", "offset where the field starts", "offset where the field ends"};
+            long nudges[4] = {0, -1, 1, r.chance(1, 2) ? static_cast<long>(2 + r.below(8)) : -static_cast<long>(2 + r.below(8))};
+            const size_t tries = T > 140000 ? 1 : 4;       // the very big ones once, on or next to the multiple
+            if (tries == 1) nudges[0] = nudges[r.below(3)];
+            for (size_t n = 0; n < tries; ++n) {
+                const long d = nudges[n];
+                if (static_cast<long>(T) + d < 1) continue;
+                const int t = static_cast<int>(static_cast<long>(T) + d);
+                double v;
+                if (r.chance(1, 2)) v = pick_double(r);
+                else { static const double sp[] = {1.5, -0.0, 0.0, DBL_MAX, -DBL_MAX, DBL_TRUE_MIN, 1e-300, 0.1, -2.5e-7, 123456789.125, 1e22, 9.5, 0.5, INFINITY, NAN}; v = r.pick(sp); }
+                const bool as_float = r.chance(1, 4);
+                if (as_float) v = static_cast<double>(static_cast<float>(v));
+                Spec s{};
+                static const char classes[] = {0, 'f', 'e', 'E'};
+                s.cls = r.pick(classes);
+                s.plus = r.chance(1, 3);
+                auto padded_to = [&](int width) {
+                    s.width = width > 0 ? width : 1;
+                    static const char aligns[] = {0, '<', '>'};
+                    s.align = r.pick(aligns);
+                    switch (r.below(4)) {
+                    case 0: { static const char padcs[] = {'*', '_', '.', '#', 'x', '-', '~', ' '}; s.padkind = 1; s.padc = r.pick(padcs); break; }
+                    case 1: if (!(v < 0) && !std::signbit(v) && !s.plus && s.align != '<') s.padkind = 2; break;     // as in pick_spec
+                    default: break;
+                    }
+                };
+                auto some_precision = [&]() -> int { return r.chance(1, 3) ? static_cast<int>(r.range(-1, 20)) : r.chance(1, 2) ? 300 + static_cast<int>(r.below(3000)) : static_cast<int>(scale::length(r, 100000, 300)); };
+                auto natural = [&]() -> size_t { Spec bare = s; bare.width = 0; return ref_format(bare, v).size(); };
+                S prefix;
+                switch (origin) {
+                case 0:
+                    s.precision = t;
+                    if (r.chance(1, 2)) { static const int deltas[] = {-1, 0, 1, 5, 12, 300, 4096, 70000}; padded_to(static_cast<int>(natural()) + r.pick(deltas)); }
+                    break;
+                case 1: {
+                    if (s.cls == 0) s.cls = 'f';
+                    s.precision = 1;
+                    const long over = static_cast<long>(natural()) - 1;
+                    s.precision = t > over ? static_cast<int>(t - over) : t;
+                    if (r.chance(1, 2)) { static const int deltas[] = {-1, 0, 1, 2, 255, 256, 4096}; padded_to(t + r.pick(deltas)); }
+                    break;
+                }
+                case 2:
+                    s.precision = r.chance(1, 4) ? std::max(0, t - 10 + static_cast<int>(r.below(20))) : some_precision();
+                    padded_to(t);
+                    break;
+                default: {
+                    s.precision = some_precision();
+                    if (r.chance(1, 2)) { static const int deltas[] = {-1, 1, 12, 300, 4096, 70000}; padded_to(static_cast<int>(natural()) + r.pick(deltas)); }
+                    const size_t field = std::max<size_t>(natural(), static_cast<size_t>(s.width)) + 1;      // '[' and the padded rendering
+                    const size_t len = origin == 3 ? static_cast<size_t>(t) : static_cast<size_t>(t) > field ? static_cast<size_t>(t) - field : 0;
+                    prefix = position_pattern(len, r.chance(1, 4) ? 'p' : 0);
+                    break;
+                }
+                }
+                const bool as_argument = r.chance(1, 2);
+                if (as_float) format_case<float>(s, static_cast<float>(v), prefix, as_argument);
+                else format_case<double>(s, v, prefix, as_argument);
+                const size_t rl = natural();
+                vrt::count("scale.format_cases");
+                if (s.precision >= 300) vrt::count("scale.precision>=300");
+                if (s.precision >= 65536) vrt::count("scale.precision>=65536");
+                if (s.precision >= 1000000) vrt::count("scale.precision>=1000000");
+                if (s.width >= 1000) vrt::count("scale.width>=1000");
+                if (s.width >= 65536) vrt::count("scale.width>=65536");
+                if (static_cast<size_t>(s.width) >= rl + 4096) vrt::count("scale.padding>=4096");
+                if (rl >= 256 && rl % 256 == 0) vrt::count("scale.rendering_length_is_multiple_of_256");
+                if (rl >= 65536 && rl % 65536 == 0) vrt::count("scale.rendering_length_is_multiple_of_65536");
+                if (prefix.size() >= 65536) vrt::count("scale.field_behind>=64KiB");
+                if (vrt::want_sample("scale_format"))
+                    vrt::sample("scale_format", sfmt("ST::format(<%zu bytes>\"[%s]\", %s %s): rendering of %zu bytes; %s = %zu x %zu %+ld", prefix.size(), spec_text(s).c_str(), as_float ? "float" : "double", dbl_bits(v).c_str(), rl, oname[origin], q, B, d));
+            }
+            vrt::count(sfmt("scale.format_measured.%s", oname[origin]));
+        });
+    }
+    // scale: << double / << float into streams that already hold 4 KiB .. 1 MiB, the rendering ending or starting on and next to
+    // q x B bytes (every capacity the stream goes through is among them), the text before it put there in one piece, in many
+    // pieces, left over in a buffer that was bigger once, as thousands of numbers, or in a stream that was moved
+    {
+        vrt::require("scale.stream_cases", 100);
+        vrt::require("scale.stream>=64KiB", 50);
+        vrt::require("scale.stream>=1MiB", 2);
+        vrt::require("scale.consecutive_number_inserts", 10000);
+        const std::vector<size_t> &BL = scale::blocks();
+        const size_t grid = BL.size() * 8;
+        vrt::phase("scale_stream", vrt::tier_count(grid * 4, grid * 100), [&](uint64_t i, Rng &r) {
+            const size_t B = BL[i % BL.size()], q = 1 + (i / BL.size()) % 8;
+            const size_t k = i / grid;
+            const unsigned history = static_cast<unsigned>((k + i) % N_HISTORIES);
+            const bool end_anchored = (i / BL.size() + k) % 2 == 0;
+            const size_t T = q * B;
+            if (T > 1310720) { vrt::count("scale.skipped_too_large"); return; }
+            const double v = pick_double(r);
+            const bool as_float = r.chance(1, 3);
+            vrt::cur_rewind();
+            vrt::cur_printf("scale_stream value=%s as %s mark=%zu x %zu rendering %s there, history=%s\n", dbl_bits(v).c_str(), as_float ? "float" : "double", q, B, end_anchored ? "ends" : "starts", history_name(history));
+            const char pattern = static_cast<char>(r.chance(1, 4) ? 'p' : 0);
+            if (as_float) nearly_full_stream<float>(static_cast<float>(v), T, end_anchored, history, pattern, &r);
+            else nearly_full_stream<double>(v, T, end_anchored, history, pattern, &r);
+            vrt::count("scale.stream_cases");
+            vrt::count(sfmt("scale.stream_history.%s", history_name(history)));
+            if (T >= 65536) vrt::count("scale.stream>=64KiB");
+            if (T >= 1048576) vrt::count("scale.stream>=1MiB");
+            if (vrt::want_sample("scale_stream"))
+                vrt::sample("scale_stream", sfmt("%s %s streamed behind text so that its rendering %s at %zu x %zu -1..+1 bytes; the text before it: %s", as_float ? "float" : "double", dbl_bits(v).c_str(),
+                                                 end_anchored ? "ends" : "starts", q, B, history_name(history)));
+        });
+    }
     vrt::alloc::check_pairing("floats");
 }
 
